@@ -34,6 +34,16 @@ fn topic(i: u64) -> String {
     crate::hist::bh((0x70_0000 + i) as u64)
 }
 
+/// A topic value as logs carry and filters name them: one of four ordinary values or - one time in six -
+/// the all-zero word, which is an ordinary value too (the zero address of a mint, an indexed 0).
+fn tpick(rng: &mut Rng) -> String {
+    if rng.chance(1, 6) {
+        crate::hist::ZERO_HASH.to_string()
+    } else {
+        topic(rng.below(4))
+    }
+}
+
 #[derive(Clone, Debug)]
 enum Pos {
     Null,
@@ -185,9 +195,9 @@ fn gen_filter(rng: &mut Rng, latest: u64, emitters: &[String]) -> Filter {
             (0..n)
                 .map(|_| match rng.below(7) {
                     0 | 1 => Pos::Null,
-                    2 | 3 => Pos::One(topic(rng.below(4))),
+                    2 | 3 => Pos::One(tpick(rng)),
                     4 => Pos::One(topic(99)),
-                    5 => Pos::Many(vec![Some(topic(rng.below(4))), Some(topic(50 + rng.below(3)))]),
+                    5 => Pos::Many(vec![Some(tpick(rng)), Some(topic(50 + rng.below(3)))]),
                     _ => match rng.below(4) {
                         0 => Pos::Many(vec![Some(topic(60)), Some(topic(61))]),
                         1 => {
@@ -198,7 +208,7 @@ fn gen_filter(rng: &mut Rng, latest: u64, emitters: &[String]) -> Filter {
                             unspecified = true;
                             Pos::Many(vec![None, Some(topic(rng.below(4)))])
                         }
-                        _ => Pos::Many(vec![Some(topic(rng.below(4))), Some(topic(rng.below(4))), Some(topic(rng.below(4)))]),
+                        _ => Pos::Many(vec![Some(tpick(rng)), Some(tpick(rng)), Some(tpick(rng))]),
                     },
                 })
                 .collect(),
@@ -250,11 +260,11 @@ fn grow_logs(rng: &mut Rng, d: &mut Driver, emitters: &[String], blocks: u64, un
                 // the log is emitted one call frame down, by the other emitter: receipt.to != log.address
                 let other = rng.pick(emitters).clone();
                 let n = rng.below(5);
-                let inner = asm::tool_call(asm::OP_LOG, &[asm::word_u64(n), hist_word(&topic(rng.below(4))), hist_word(&topic(rng.below(4))), hist_word(&topic(rng.below(4))), hist_word(&topic(rng.below(4))), asm::word_u64(*uniq)], &[]);
+                let inner = asm::tool_call(asm::OP_LOG, &[asm::word_u64(n), hist_word(&tpick(rng)), hist_word(&tpick(rng)), hist_word(&tpick(rng)), hist_word(&tpick(rng)), asm::word_u64(*uniq)], &[]);
                 asm::tool_call(asm::OP_CALL, &[asm::word_addr(&hist::parse_addr(&other))], &inner)
             } else if rng.chance(2, 3) {
                 let n = rng.below(5);
-                asm::tool_call(asm::OP_LOG, &[asm::word_u64(n), hist_word(&topic(rng.below(4))), hist_word(&topic(rng.below(4))), hist_word(&topic(rng.below(4))), hist_word(&topic(rng.below(4))), asm::word_u64(*uniq)], &[])
+                asm::tool_call(asm::OP_LOG, &[asm::word_u64(n), hist_word(&tpick(rng)), hist_word(&tpick(rng)), hist_word(&tpick(rng)), hist_word(&tpick(rng)), asm::word_u64(*uniq)], &[])
             } else {
                 // several LOG2 in one transaction: topic1 shared, topic2 = base + i
                 asm::tool_call(asm::OP_LOGS, &[asm::word_u64(rng.range(2, 4)), hist_word(&topic(rng.below(4))), asm::word_u64(0x70_0000 + rng.below(3))], &[])
